@@ -35,6 +35,12 @@ func (w *zzSubWorld) name(n zzSN) Name {
 // denotes: occurrence o is a reference to `old` (by channel identity once initialised, by
 // identifier before).
 func zzDenotes(o, old zzSN) bool {
+	if o.self {
+		// an occurrence that denotes the provider never refers to a client channel or binder,
+		// whatever identifier it carries for display (the runtime builds such names after a
+		// provider-side receive: NewSelf(<identifier of the channel taken over>))
+		return false
+	}
 	if old.ch != 0 {
 		return o.ch == old.ch
 	}
@@ -72,6 +78,9 @@ func ZZC14Subst() {
 	b1, b2 := w.gen(false), w.gen(false) // binders
 	u1, u2, u3 := w.gen(true), w.gen(true), w.gen(true)
 	old, nw := w.gen(true), w.gen(true)
+	// one occurrence may denote the provider while carrying a display identifier
+	u1.self = vn.Bool()
+	vn.Assume(vn.Implies(u1.self, u1.ch == 0))
 	inner := NewSend(w.name(u1), w.name(u2), w.name(u3))
 	kind := vn.Pick(7)
 	var f Form
